@@ -226,7 +226,9 @@ loop:
 		}
 		return ftoken(f), len(s)
 	}
-	n, err := strconv.ParseInt(s, 0, 64)
+	// decimal only: SQLite reads 010 as ten, and has no 0o/0b prefixes or
+	// digit separators
+	n, err := strconv.ParseInt(s, 10, 64)
 	if err != nil {
 		return token{}, -1
 	}
